@@ -1,24 +1,1043 @@
-//! C06 — not implemented yet (stub so that the registry compiles).
+//! C06 — one-shot applies to exactly the next key, or expires; it never lingers.
+//!
+//! Part 1: every schedule of up to N events over three keys (one or two one-shot keys of one end
+//! variant, one or two plain keys) with gaps {0,1,T-1,T,T+1} is compared tick by tick with the
+//! one-shot reference model (DESIGN.md appendix E.3); on five schedule families the statement is
+//! additionally read directly off the OS stream (first following key modified iff it arrives in
+//! time, second following key never modified, expiry tick, held one-shot key acts as the plain key,
+//! pcancel re-press, stacking restarts the timeout).
+//! Part 2: long random histories that stack 17-40 one-shot taps (the table holds 16), judged by
+//! invariants only: what the first following key sees, the second following key and a late probe
+//! key unmodified, nothing down and nothing pending at the end.
 
-use crate::core::{CaseOut, Check, Ctx};
+use super::c04::util::*;
+use crate::core::rng::Rng;
+use crate::core::sim::{code_name, render_hist, Ev, Sim};
+use crate::core::{CaseOut, Check, Ctx, Tier};
+use serde_json::{json, Value};
+use std::collections::VecDeque;
 
 pub struct C06Check;
 pub static C06: C06Check = C06Check;
+
+// ------------------------------------------------------------------ configuration description
+
+#[derive(Clone, Copy, Debug, PartialEq, Eq)]
+pub enum End {
+    Press,
+    Release,
+    PressPc,
+    ReleasePc,
+}
+pub const ENDS: [End; 4] = [End::Press, End::Release, End::PressPc, End::ReleasePc];
+impl End {
+    fn name(self, alias: bool) -> &'static str {
+        match self {
+            End::Press => {
+                if alias {
+                    "one-shot"
+                } else {
+                    "one-shot-press"
+                }
+            }
+            End::Release => "one-shot-release",
+            End::PressPc => "one-shot-press-pcancel",
+            End::ReleasePc => "one-shot-release-pcancel",
+        }
+    }
+    fn is_press(self) -> bool {
+        matches!(self, End::Press | End::PressPc)
+    }
+    fn is_pc(self) -> bool {
+        matches!(self, End::PressPc | End::ReleasePc)
+    }
+}
+
+/// what a physical key does
+#[derive(Clone, Debug, PartialEq)]
+pub enum Role {
+    /// one-shot of a key or an output chord (the key codes it holds down)
+    OsKeys(Vec<&'static str>),
+    /// one-shot of (layer-while-held l1)
+    OsLayer,
+    /// plain key: output on the base layer, output on l1
+    Plain(&'static str, &'static str),
+}
+
+#[derive(Clone, Debug)]
+pub struct P {
+    pub shape: usize,
+    pub end: End,
+    pub t: u16,
+    pub red: u16,
+}
+
+fn shape_roles(shape: usize) -> [Role; 3] {
+    match shape {
+        0 => [Role::OsKeys(vec!["lsft"]), Role::OsKeys(vec!["lctl"]), Role::Plain("c", "c")],
+        1 => [Role::OsLayer, Role::Plain("b", "1"), Role::Plain("c", "2")],
+        _ => [Role::OsKeys(vec!["lctl", "lalt"]), Role::OsLayer, Role::Plain("c", "2")],
+    }
+}
+
+fn render_os(end: End, alias: bool, t: u16, r: &Role) -> String {
+    match r {
+        Role::OsKeys(v) if v.len() == 1 => format!("({} {t} {})", end.name(alias), v[0]),
+        Role::OsKeys(v) => {
+            let mut s = String::new();
+            for m in &v[..v.len() - 1] {
+                s.push_str(match *m {
+                    "lsft" => "S-",
+                    "lctl" => "C-",
+                    "lalt" => "A-",
+                    "ralt" => "RA-",
+                    _ => "M-",
+                });
+            }
+            s.push_str(v[v.len() - 1]);
+            format!("({} {t} {s})", end.name(alias))
+        }
+        Role::OsLayer => format!("({} {t} (layer-while-held l1))", end.name(alias)),
+        Role::Plain(b, _) => b.to_string(),
+    }
+}
+
+impl P {
+    pub fn roles(&self) -> [Role; 3] {
+        shape_roles(self.shape)
+    }
+    pub fn render(&self) -> String {
+        let roles = self.roles();
+        let mut s = String::new();
+        if self.red != 5 {
+            s.push_str(&format!("(defcfg rapid-event-delay {})\n", self.red));
+        }
+        s.push_str("(defsrc a b c)\n");
+        let alias = self.t % 2 == 1;
+        s.push_str(&format!("(deflayer l0 {})\n", roles.iter().map(|r| render_os(self.end, alias, self.t, r)).collect::<Vec<_>>().join(" ")));
+        if roles.iter().any(|r| *r == Role::OsLayer) {
+            s.push_str(&format!("(deflayer l1 {})\n", roles.iter().map(|r| if let Role::Plain(_, a) = r { a.to_string() } else { "_".to_string() }).collect::<Vec<_>>().join(" ")));
+        }
+        s
+    }
+    fn label(&self) -> String {
+        format!("s{}:{}:T{}:r{}", self.shape, self.end.name(false), self.t, self.red)
+    }
+}
+
+// ------------------------------------------------------------------ reference model (appendix E.3)
+
+#[derive(Clone, Copy, Debug, PartialEq)]
+enum StK {
+    Key(u16),
+    Layer,
+}
+
+pub struct Model {
+    p: P,
+    roles: [Role; 3],
+    q: VecDeque<(bool, usize)>,
+    pause: u16,
+    st: Vec<(usize, StK)>,
+    diff: OsDiff,
+    keys: VecDeque<usize>,
+    released: VecDeque<usize>,
+    other: VecDeque<usize>,
+    timeout: u16,
+    rel_next: bool,
+    pub ends_by_timeout: u64,
+    pub ends_by_input: u64,
+    pub max_stack: u64,
+    pub activations: u64,
+}
+
+impl Model {
+    pub fn new(p: P) -> Self {
+        let roles = p.roles();
+        Model { p, roles, q: VecDeque::new(), pause: 0, st: vec![], diff: OsDiff::default(), keys: VecDeque::new(), released: VecDeque::new(), other: VecDeque::new(), timeout: 0, rel_next: false, ends_by_timeout: 0, ends_by_input: 0, max_stack: 0, activations: 0 }
+    }
+    pub fn push(&mut self, press: bool, c: usize) {
+        self.q.push_back((press, c));
+    }
+    pub fn quiescent(&self) -> bool {
+        self.q.is_empty() && self.keys.is_empty() && self.st.is_empty() && self.pause == 0 && self.diff.all_up()
+    }
+    fn do_release(&mut self, c: usize) {
+        let do_rel = if self.keys.is_empty() {
+            true
+        } else if !self.keys.contains(&c) {
+            if !self.p.end.is_press() && self.other.contains(&c) {
+                self.rel_next = true;
+            }
+            true
+        } else {
+            self.released.push_back(c);
+            false
+        };
+        if do_rel {
+            self.st.retain(|s| s.0 != c);
+        }
+    }
+    pub fn tick(&mut self) -> TickOut {
+        if !self.keys.is_empty() {
+            self.timeout = self.timeout.saturating_sub(1);
+            if self.rel_next || self.timeout == 0 {
+                if self.rel_next || self.pause > 0 {
+                    self.ends_by_input += 1;
+                } else {
+                    self.ends_by_timeout += 1;
+                }
+                self.rel_next = false;
+                self.timeout = 0;
+                self.pause = 0;
+                self.keys.clear();
+                self.other.clear();
+                let rel: Vec<usize> = self.released.drain(..).collect();
+                for c in rel {
+                    self.do_release(c);
+                }
+            }
+        }
+        if self.pause > 0 {
+            self.pause -= 1;
+        } else if let Some((press, c)) = self.q.pop_front() {
+            if !press {
+                self.do_release(c);
+            } else {
+                match self.roles[c].clone() {
+                    Role::OsKeys(v) => {
+                        for k in v {
+                            self.st.push((c, StK::Key(kc(k))));
+                        }
+                        self.os_pressed(c);
+                    }
+                    Role::OsLayer => {
+                        self.st.push((c, StK::Layer));
+                        self.os_pressed(c);
+                    }
+                    Role::Plain(base, alt) => {
+                        let on_layer = self.st.iter().any(|s| s.1 == StK::Layer);
+                        self.st.push((c, StK::Key(kc(if on_layer { alt } else { base }))));
+                        if !self.keys.is_empty() {
+                            if self.p.end.is_press() {
+                                self.timeout = self.timeout.min(self.p.red);
+                                self.pause = self.p.red;
+                            } else {
+                                self.other.push_back(c);
+                            }
+                        }
+                    }
+                }
+            }
+        }
+        let cur: Vec<u16> = self.st.iter().filter_map(|s| if let StK::Key(k) = s.1 { Some(k) } else { None }).collect();
+        self.diff.step(&cur)
+    }
+    fn os_pressed(&mut self, c: usize) {
+        self.activations += 1;
+        if !self.keys.is_empty() {
+            if self.p.end.is_pc() && self.keys.contains(&c) {
+                self.rel_next = true;
+            }
+            self.released.retain(|x| *x != c);
+        }
+        self.timeout = self.p.t;
+        self.keys.push_back(c);
+        self.max_stack = self.max_stack.max(self.keys.len() as u64);
+    }
+}
+
+// ------------------------------------------------------------------ lockstep
+
+type OutEv = (u64, bool, u16);
+
+#[derive(Clone, Debug)]
+struct Bad {
+    sig: String,
+    what: String,
+}
+
+struct Lock {
+    p: P,
+    sim: Sim,
+    model: Model,
+    codes: [u16; 3],
+    outs: Vec<OutEv>,
+    ktrace: Vec<(u64, TickOut)>,
+    mtrace: Vec<(u64, TickOut)>,
+    t0: u64,
+    max_kanata_stack: u64,
+}
+
+impl Lock {
+    fn new(p: P, text: &str) -> Result<Lock, String> {
+        let sim = Sim::new(text)?;
+        Ok(Lock { model: Model::new(p.clone()), p, sim, codes: [kc("a"), kc("b"), kc("c")], outs: vec![], ktrace: vec![], mtrace: vec![], t0: 0, max_kanata_stack: 0 })
+    }
+    fn tick(&mut self) -> Option<Bad> {
+        self.sim.tick();
+        let k = kanata_outs(self.sim.last());
+        let m = self.model.tick();
+        let t = self.sim.now - self.t0;
+        for o in &k {
+            self.outs.push((t, o.0, o.1));
+        }
+        if self.sim.last().iter().any(|o| o.repress) {
+            return Some(Bad { sig: "C06:repress".into(), what: format!("tick {t}: a key that is already down was pressed again: [{}]", fmt_tick(&k)) });
+        }
+        if !k.is_empty() {
+            self.ktrace.push((t, k.clone()));
+        }
+        if !m.is_empty() {
+            self.mtrace.push((t, m.clone()));
+        }
+        if k != m {
+            return Some(Bad { sig: format!("C06:model:{}", classify(&k, &m)), what: format!("tick {t}: kanata wrote [{}], the one-shot model expects [{}]", fmt_tick(&k), fmt_tick(&m)) });
+        }
+        None
+    }
+    fn run(&mut self, h: &[Ev]) -> Option<Bad> {
+        self.outs.clear();
+        self.ktrace.clear();
+        self.mtrace.clear();
+        self.t0 = self.sim.now;
+        for e in h {
+            match e {
+                Ev::T(n) => {
+                    for _ in 0..*n {
+                        if let Some(b) = self.tick() {
+                            return Some(b);
+                        }
+                    }
+                    self.max_kanata_stack = self.max_kanata_stack.max(self.sim.k.layout.b().oneshot.keys.len() as u64);
+                }
+                Ev::P(code) | Ev::R(code) => {
+                    let press = matches!(e, Ev::P(_));
+                    let Some(k) = self.codes.iter().position(|x| x == code) else { continue };
+                    if press {
+                        self.sim.press(*code);
+                    } else {
+                        self.sim.release(*code);
+                    }
+                    self.model.push(press, k);
+                    if !self.sim.last().is_empty() {
+                        return Some(Bad { sig: "C06:output-at-event".into(), what: "output while an input event was handled".into() });
+                    }
+                }
+                _ => {}
+            }
+        }
+        let bound = 3 * (self.p.t as u64 + self.p.red as u64) + 40 + 8 * h.len() as u64;
+        let mut n = 0;
+        while n < bound {
+            if let Some(b) = self.tick() {
+                return Some(b);
+            }
+            n += 1;
+            if self.model.quiescent() && n >= 2 {
+                break;
+            }
+        }
+        if !self.model.quiescent() {
+            return Some(Bad { sig: "C06:harness:model-not-quiescent".into(), what: "reference model did not settle within the drain bound".into() });
+        }
+        let l = self.sim.k.layout.b();
+        if !l.states.is_empty() || !l.oneshot.keys.is_empty() || !l.queue.is_empty() || !self.sim.os.all_up() {
+            return Some(Bad { sig: "C06:lingers".into(), what: format!("after every key was released and the timeout passed: states={:?} active one-shots={} queue={} os={}", l.states, l.oneshot.keys.len(), l.queue.len(), self.sim.os.describe()) });
+        }
+        None
+    }
+}
+
+// ------------------------------------------------------------------ statement-level invariants on schedule families
+
+/// for every press of one of `plain` codes: (tick, code, keys the OS held just before that press)
+fn presses_with_context(outs: &[OutEv], plain: &[u16]) -> Vec<(u64, u16, Vec<u16>)> {
+    let mut down: Vec<u16> = vec![];
+    let mut v = vec![];
+    for &(t, d, c) in outs {
+        if d {
+            if plain.contains(&c) {
+                v.push((t, c, down.clone()));
+            }
+            if !down.contains(&c) {
+                down.push(c);
+            }
+        } else {
+            down.retain(|x| *x != c);
+        }
+    }
+    v
+}
+
+/// is the press (code, held-before) of plain key `pk` modified by one-shot key `os`?
+fn modified_by(roles: &[Role; 3], os: usize, pk: usize, code: u16, held: &[u16]) -> bool {
+    match (&roles[os], &roles[pk]) {
+        (Role::OsKeys(v), _) => v.iter().all(|k| held.contains(&kc(k))),
+        (Role::OsLayer, Role::Plain(_, alt)) => code == kc(alt),
+        _ => false,
+    }
+}
+
+/// processing tick of every event of a schedule when nothing pauses the queue: one event per
+/// tick, an event injected after p ticks is processed in tick p+1 at the earliest
+fn proc_ticks(keys: &[usize], gaps: &[usize], gv: &[u32]) -> Vec<u64> {
+    let mut inj = 0u64;
+    let mut last = 0u64;
+    let mut v = vec![];
+    for i in 0..keys.len() {
+        if i > 0 {
+            inj += gv[gaps[i]] as u64;
+        }
+        let p = (inj + 1).max(last + 1);
+        v.push(p);
+        last = p;
+    }
+    v
+}
+
+/// Returns the name of the family that was judged (for evidence) and the verdict.
+fn family_check(p: &P, keys: &[usize], gaps: &[usize], gv: &[u32], outs: &[OutEv]) -> Option<(&'static str, Result<(), Bad>)> {
+    let roles = p.roles();
+    let t = p.t as u64;
+    let is_os = |k: usize| !matches!(roles[k], Role::Plain(..));
+    let plain_codes: Vec<u16> = roles.iter().flat_map(|r| if let Role::Plain(b, a) = r { vec![kc(b), kc(a)] } else { vec![] }).collect();
+    let pr = proc_ticks(keys, gaps, gv);
+    let ctx = presses_with_context(outs, &plain_codes);
+    let bad = |sig: &str, what: String| Some(("violated", Err(Bad { sig: format!("C06:{sig}"), what })));
+    let o = (0..3).find(|k| is_os(*k))?;
+    let pk = (0..3).rev().find(|k| !is_os(*k))?;
+    let desc = |i: usize| -> String {
+        match ctx.get(i) {
+            Some((tk, c, held)) => format!("press #{i} of {} in tick {tk} with [{}] held", code_name(*c), held.iter().map(|c| code_name(*c)).collect::<Vec<_>>().join(" ")),
+            None => format!("press #{i} missing"),
+        }
+    };
+    // (a)+(b): os down, os up, plain down, plain up, plain down
+    if keys.len() >= 3 && keys[0] == o && keys[1] == o && keys[2..].iter().all(|k| *k == pk) {
+        let Some(first) = ctx.first() else { return bad("a:first-key-missing", "the first following key produced no press".into()) };
+        let expect = pr[2] <= t;
+        let got = modified_by(&roles, o, pk, first.1, &first.2);
+        if got != expect {
+            return bad(
+                if expect { "a:first-key-not-modified" } else { "a:first-key-modified-after-expiry" },
+                format!("one-shot tapped in tick 1 (T={t}), first following key processed in tick {}: expected {}modified; {}", pr[2], if expect { "" } else { "un" }, desc(0)),
+            );
+        }
+        if keys.len() >= 5 {
+            let Some(second) = ctx.get(1) else { return bad("b:second-key-missing", "the second following key produced no press".into()) };
+            if modified_by(&roles, o, pk, second.1, &second.2) {
+                return bad(if p.end.is_press() { "b:second-key-modified" } else { "b:key-after-first-release-modified" }, format!("{}; {}", desc(0), desc(1)));
+            }
+        }
+        return Some(("a-b:first-modified-iff-in-time,second-never", Ok(())));
+    }
+    // (c): os down, os up, nothing else: expiry tick (key / chord one-shots only)
+    if keys.len() == 2 && keys[0] == o && keys[1] == o {
+        if let Role::OsKeys(v) = &roles[o] {
+            let code = kc(v[0]);
+            let up = outs.iter().find(|e| !e.1 && e.2 == code).map(|e| e.0);
+            let expect = if pr[1] <= t { 1 + t } else { pr[1] };
+            if up != Some(expect) {
+                return bad("c:expiry-tick", format!("one-shot pressed (processed in tick 1, T={t}), released (processed in tick {}), no other input: expected its key released in tick {expect}, observed {:?}", pr[1], up));
+            }
+            return Some(("c:expiry", Ok(())));
+        }
+        return None;
+    }
+    // (d): os held while the plain key is pressed twice
+    if keys.len() == 5 && keys[0] == o && keys[4] == o && keys[1..4].iter().all(|k| *k == pk) {
+        for i in 0..2 {
+            match ctx.get(i) {
+                Some((_, c, held)) if modified_by(&roles, o, pk, *c, held) => {}
+                _ => return bad("d:held-one-shot-not-acting-as-plain-key", format!("one-shot key physically held; {}", desc(i))),
+            }
+        }
+        return Some(("d:held-acts-as-plain-key", Ok(())));
+    }
+    // (e): os tapped twice, then the plain key
+    if keys.len() == 5 && keys[..4].iter().all(|k| *k == o) && keys[4] == pk {
+        let Some(first) = ctx.first() else { return bad("e:key-missing", "the following key produced no press".into()) };
+        let got = modified_by(&roles, o, pk, first.1, &first.2);
+        let repress_while_active = pr[2] <= t;
+        let expect = if p.end.is_pc() && repress_while_active { false } else { pr[4] < pr[2] + t };
+        if got != expect {
+            let sig = if p.end.is_pc() && repress_while_active { "e:pcancel-repress-did-not-end" } else if expect { "e:retap-not-modified" } else { "e:retap-modified-after-expiry" };
+            return bad(sig, format!("one-shot tapped (tick 1), tapped again (processed in tick {}), key processed in tick {} (T={t}): expected {}modified; {}", pr[2], pr[4], if expect { "" } else { "un" }, desc(0)));
+        }
+        return Some(("e:retap-or-pcancel", Ok(())));
+    }
+    // (f): two different one-shot keys tapped in a row, then the plain key
+    let o2 = (0..3).filter(|k| is_os(*k)).nth(1);
+    if let Some(o2) = o2 {
+        if keys.len() == 5 && keys[0] == o && keys[1] == o && keys[2] == o2 && keys[3] == o2 && keys[4] == pk {
+            let Some(first) = ctx.first() else { return bad("f:key-missing", "the following key produced no press".into()) };
+            let second_in_time = pr[4] < pr[2] + t;
+            let exp1 = pr[2] <= t && second_in_time;
+            let exp2 = second_in_time;
+            let got1 = modified_by(&roles, o, pk, first.1, &first.2);
+            let got2 = modified_by(&roles, o2, pk, first.1, &first.2);
+            if got2 != exp2 {
+                return bad(if exp2 { "f:stacked-second-not-applied" } else { "f:stacked-second-applied-after-expiry" }, format!("second one-shot processed in tick {}, key in tick {} (T={t}); {}", pr[2], pr[4], desc(0)));
+            }
+            if got1 != exp1 {
+                return bad(
+                    if exp1 { "f:stacking-did-not-restart-timeout" } else { "f:first-applied-after-expiry" },
+                    format!("first one-shot in tick 1, second processed in tick {}, key in tick {} (T={t}): expected the first one-shot {}; {}", pr[2], pr[4], if exp1 { "still applied (timeout restarted by the second)" } else { "expired" }, desc(0)),
+                );
+            }
+            return Some(("f:stacking-combines-and-restarts", Ok(())));
+        }
+    }
+    None
+}
+
+// ------------------------------------------------------------------ fresh judgement + report
+
+struct FreshVerdict {
+    bad: Option<Bad>,
+    observed: Vec<String>,
+    expected: Vec<String>,
+}
+
+fn fresh_judge(p: &P, text: &str, h: &[Ev], sched: Option<(&[usize], &[usize], &[u32])>) -> Option<FreshVerdict> {
+    let mut l = Lock::new(p.clone(), text).ok()?;
+    let mut bad = l.run(h);
+    if bad.is_none() {
+        if let Some((keys, gaps, gv)) = sched {
+            if let Some((_, Err(b))) = family_check(p, keys, gaps, gv, &l.outs) {
+                bad = Some(b);
+            }
+        }
+    }
+    if bad.is_some() {
+        for _ in 0..(p.t as u64 + p.red as u64 + 4) {
+            l.sim.tick();
+            let k = kanata_outs(l.sim.last());
+            if !k.is_empty() {
+                l.ktrace.push((l.sim.now - l.t0, k));
+            }
+        }
+    }
+    Some(FreshVerdict { bad, observed: fmt_trace(&l.ktrace), expected: fmt_trace(&l.mtrace) })
+}
+
+fn report(out: &mut CaseOut, p: &P, text: &str, h: &[Ev], first: &Bad, sched: Option<(&[usize], &[usize], &[u32])>) {
+    let fv = fresh_judge(p, text, h, sched);
+    match fv {
+        Some(FreshVerdict { bad: Some(b0), observed, expected }) => {
+            // family verdicts are tied to the schedule shape: minimise only model disagreements
+            let (hm, b, obs, exp) = if b0.sig.starts_with("C06:model:") || b0.sig == "C06:lingers" {
+                let sig0 = b0.sig.clone();
+                let hm = minimise_hist(h, &mut |c| fresh_judge(p, text, c, None).and_then(|f| f.bad).map(|b| b.sig == sig0).unwrap_or(false));
+                match fresh_judge(p, text, &hm, None) {
+                    Some(FreshVerdict { bad: Some(b), observed, expected }) => (hm, b, observed, expected),
+                    _ => (h.to_vec(), b0, observed, expected),
+                }
+            } else {
+                (h.to_vec(), b0, observed, expected)
+            };
+            out.violate(b.sig.clone(), b.what.clone(), json!({"part": "exhaustive", "config": text, "params": p.label(), "history": render_hist(&hm), "original_history": render_hist(h), "observed": obs, "expected": exp, "reproduced_on_fresh_instance": true}));
+        }
+        _ => {
+            out.violate(
+                format!("C06:carry-over:{}", first.sig.trim_start_matches("C06:")),
+                format!("{} (only after earlier histories on the same instance)", first.what),
+                json!({"part": "exhaustive", "config": text, "params": p.label(), "history": render_hist(h), "observed": first.what, "expected": "agreement with the model", "reproduced_on_fresh_instance": false}),
+            );
+        }
+    }
+}
+
+// ------------------------------------------------------------------ part 2: stacked one-shots, invariants only
+
+const N_OS: usize = 20;
+const OS_PHYS: [&str; N_OS] = ["a", "b", "c", "d", "e", "f", "g", "h", "i", "j", "k", "l", "m", "n", "o", "p", "q", "r", "s", "t"];
+const OS_OUT: [&str; N_OS] = ["lsft", "lctl", "lalt", "lmet", "rsft", "rctl", "ralt", "rmet", "f13", "f14", "f15", "f16", "f17", "f18", "f19", "f20", "f21", "f22", "f23", "f24"];
+const PLAIN_PHYS: [&str; 2] = ["u", "v"];
+/// outputs of the two plain keys on l0, l1, l2
+const PLAIN_OUT: [[&str; 3]; 2] = [["u", "1", "3"], ["v", "2", "4"]];
+
+#[derive(Clone, Debug)]
+enum Kind2 {
+    Keys(Vec<&'static str>),
+    Layer(usize),
+}
+
+#[derive(Clone, Debug)]
+struct Cfg2 {
+    ends: Vec<End>,
+    kinds: Vec<Kind2>,
+    t: u16,
+    red: u16,
+    mixed: bool,
+}
+
+fn kind_of(i: usize) -> Kind2 {
+    match i {
+        6 => Kind2::Layer(1),
+        13 => Kind2::Layer(2),
+        3 => Kind2::Keys(vec!["lalt", "lmet"]),
+        10 => Kind2::Keys(vec!["lctl", "f15"]),
+        17 => Kind2::Keys(vec!["lsft", "f22"]),
+        _ => Kind2::Keys(vec![OS_OUT[i]]),
+    }
+}
+
+impl Cfg2 {
+    fn render(&self) -> String {
+        let mut s = String::new();
+        if self.red != 5 {
+            s.push_str(&format!("(defcfg rapid-event-delay {})\n", self.red));
+        }
+        s.push_str(&format!("(defsrc {} {})\n", OS_PHYS.join(" "), PLAIN_PHYS.join(" ")));
+        let mut row = vec![];
+        for i in 0..N_OS {
+            let name = self.ends[i].name(i % 2 == 0);
+            row.push(match &self.kinds[i] {
+                Kind2::Layer(l) => format!("({name} {} (layer-while-held l{l}))", self.t),
+                Kind2::Keys(v) if v.len() == 1 => format!("({name} {} {})", self.t, v[0]),
+                Kind2::Keys(v) => format!("({name} {} {}{})", self.t, match v[0] { "lalt" => "A-", "lctl" => "C-", _ => "S-" }, v[1]),
+            });
+        }
+        s.push_str(&format!("(deflayer l0 {} {} {})\n", row.join(" "), PLAIN_OUT[0][0], PLAIN_OUT[1][0]));
+        for l in 1..3 {
+            s.push_str(&format!("(deflayer l{l} {} {} {})\n", vec!["_"; N_OS].join(" "), PLAIN_OUT[0][l], PLAIN_OUT[1][l]));
+        }
+        s
+    }
+}
+
+struct Plan2 {
+    cfg: Cfg2,
+    /// one-shot keys tapped, in order
+    taps: Vec<usize>,
+    hist: Vec<Ev>,
+    /// index (among plain-key presses of the history) -> what is expected of it
+    distinct: bool,
+    pure_expiry: bool,
+    p1: usize,
+    p2: usize,
+}
+
+fn plan2(seed: u64, idx: u64) -> Plan2 {
+    let mut rng = Rng::for_case(seed, "C06", "stacked", idx);
+    let mixed = rng.chance(3, 10);
+    let e0 = *rng.pick(&ENDS);
+    let ends: Vec<End> = (0..N_OS).map(|_| if mixed { *rng.pick(&ENDS) } else { e0 }).collect();
+    let cfg = Cfg2 { ends, kinds: (0..N_OS).map(kind_of).collect(), t: *rng.pick(&[30u16, 200]), red: *rng.pick(&[5u16, 0, 1]), mixed };
+    let distinct = rng.coin();
+    let n = if distinct { 17 + rng.usize(4) } else { 17 + rng.usize(24) };
+    let mut taps: Vec<usize> = if distinct {
+        rng.subset(N_OS, n)
+    } else {
+        (0..n).map(|_| rng.usize(N_OS)).collect()
+    };
+    // at most 8 layer one-shot taps (fewer than 12 layers held)
+    let mut layer_taps = 0;
+    taps.retain(|k| {
+        if matches!(kind_of(*k), Kind2::Layer(_)) {
+            layer_taps += 1;
+            layer_taps <= 8
+        } else {
+            true
+        }
+    });
+    let code = |n: &'static str| kc(n);
+    let mut h = vec![];
+    for &k in &taps {
+        h.push(Ev::P(code(OS_PHYS[k])));
+        let g = rng.below(3) as u32;
+        if g > 0 {
+            h.push(Ev::T(g));
+        }
+        h.push(Ev::R(code(OS_PHYS[k])));
+        let g = rng.below(4) as u32;
+        if g > 0 {
+            h.push(Ev::T(g));
+        }
+    }
+    let pure_expiry = rng.chance(1, 6);
+    let p1 = rng.usize(2);
+    let p2 = rng.usize(2);
+    if !pure_expiry {
+        h.push(Ev::T(1 + rng.below(3) as u32));
+        h.push(Ev::P(code(PLAIN_PHYS[p1])));
+        h.push(Ev::T(rng.below(12) as u32 + 1));
+        h.push(Ev::R(code(PLAIN_PHYS[p1])));
+        h.push(Ev::T(cfg.red as u32 + 3 + rng.below(5) as u32));
+        h.push(Ev::P(code(PLAIN_PHYS[p2])));
+        h.push(Ev::T(1 + rng.below(4) as u32));
+        h.push(Ev::R(code(PLAIN_PHYS[p2])));
+    }
+    // late probe: long after everything must have expired
+    h.push(Ev::T(cfg.t as u32 + cfg.red as u32 + 25));
+    h.push(Ev::P(code(PLAIN_PHYS[0])));
+    h.push(Ev::T(2));
+    h.push(Ev::R(code(PLAIN_PHYS[0])));
+    Plan2 { cfg, taps, hist: h, distinct, pure_expiry, p1, p2 }
+}
+
+struct Res2 {
+    realized: Vec<Ev>,
+    outs: Vec<OutEv>,
+    max_stack: u64,
+    max_queue: u64,
+    verdict: Result<(), Bad>,
+    first_key_mods: u64,
+    overflowed: bool,
+}
+
+fn run2(pl: &Plan2, text: &str, h: &[Ev], full_checks: bool) -> Option<Res2> {
+    let mut sim = Sim::new(text).ok()?;
+    let mut r = Res2 { realized: vec![], outs: vec![], max_stack: 0, max_queue: 0, verdict: Ok(()), first_key_mods: 0, overflowed: false };
+    let mut repress: Option<u64> = None;
+    let mut step = |sim: &mut Sim, r: &mut Res2| {
+        sim.tick();
+        if sim.last().iter().any(|o| o.repress) && repress.is_none() {
+            repress = Some(sim.now);
+        }
+        for o in kanata_outs(sim.last()) {
+            r.outs.push((sim.now, o.0, o.1));
+        }
+        r.max_stack = r.max_stack.max(sim.k.layout.b().oneshot.keys.len() as u64);
+    };
+    for e in h {
+        match e {
+            Ev::T(n) => {
+                for _ in 0..*n {
+                    step(&mut sim, &mut r);
+                }
+                r.realized.push(e.clone());
+            }
+            Ev::P(c) | Ev::R(c) => {
+                let mut extra = 0u32;
+                while sim.k.layout.b().queue.len() >= 27 && extra < 500 {
+                    step(&mut sim, &mut r);
+                    extra += 1;
+                }
+                if extra > 0 {
+                    r.realized.push(Ev::T(extra));
+                }
+                if matches!(e, Ev::P(_)) {
+                    sim.press(*c);
+                } else {
+                    sim.release(*c);
+                }
+                r.realized.push(e.clone());
+                r.max_queue = r.max_queue.max(sim.k.layout.b().queue.len() as u64);
+            }
+            _ => {}
+        }
+    }
+    for _ in 0..(pl.cfg.t as u64 + pl.cfg.red as u64 + 60) {
+        step(&mut sim, &mut r);
+    }
+    r.overflowed = pl.taps.len() > 16;
+    // ---- invariants
+    let l = sim.k.layout.b();
+    let bad = |sig: &str, what: String| Err(Bad { sig: format!("C06:{sig}"), what });
+    if let Some(t) = repress {
+        r.verdict = bad("repress", format!("tick {t}: a key that is already down was pressed again"));
+        return Some(r);
+    }
+    if !sim.os.all_up() || !l.states.is_empty() || !l.oneshot.keys.is_empty() || !l.queue.is_empty() {
+        r.verdict = bad("stacked:stuck-at-end", format!("after the last release and T+rapid-event-delay+60 ticks: os={} states={:?} active one-shots={} queue={}", sim.os.describe(), l.states, l.oneshot.keys.len(), l.queue.len()));
+        return Some(r);
+    }
+    let plain_codes: Vec<u16> = PLAIN_OUT.iter().flat_map(|r| r.iter().map(|n| kc(n))).collect();
+    let ctx = presses_with_context(&r.outs, &plain_codes);
+    let n_expected = if pl.pure_expiry { 1 } else { 3 };
+    if full_checks && ctx.len() != n_expected {
+        r.verdict = bad("stacked:plain-key-count", format!("{} plain key presses were injected, {} were output", n_expected, ctx.len()));
+        return Some(r);
+    }
+    let show = |x: &(u64, u16, Vec<u16>)| format!("{} pressed in tick {} with [{}] held", code_name(x.1), x.0, x.2.iter().map(|c| code_name(*c)).collect::<Vec<_>>().join(" "));
+    // the late probe (always the last plain press) must be plain
+    if let Some(last) = ctx.last() {
+        if full_checks && (last.1 != kc(PLAIN_OUT[0][0]) || !last.2.is_empty()) {
+            r.verdict = bad("stacked:lingers-after-timeout", format!("probe key long after the timeout: {}", show(last)));
+            return Some(r);
+        }
+    }
+    if full_checks && !pl.pure_expiry && ctx.len() == 3 {
+        // second following key: never modified
+        let second = &ctx[1];
+        if second.1 != kc(PLAIN_OUT[pl.p2][0]) || !second.2.is_empty() {
+            r.verdict = bad("stacked:second-key-modified", format!("second key after {} stacked one-shots: {}", pl.taps.len(), show(second)));
+            return Some(r);
+        }
+        // first following key: sees the most recent (at most 16) distinct one-shots
+        let first = &ctx[0];
+        r.first_key_mods = first.2.len() as u64;
+        if pl.distinct {
+            let active: Vec<usize> = pl.taps.iter().rev().take(16).copied().collect();
+            let mut want: Vec<u16> = vec![];
+            let mut layer = 0usize;
+            for k in &active {
+                match kind_of(*k) {
+                    Kind2::Keys(v) => {
+                        for n in v {
+                            if !want.contains(&kc(n)) {
+                                want.push(kc(n));
+                            }
+                        }
+                    }
+                    Kind2::Layer(l) => {
+                        if layer == 0 {
+                            layer = l;
+                        }
+                    }
+                }
+            }
+            let mut got = first.2.clone();
+            got.sort();
+            want.sort();
+            if first.1 != kc(PLAIN_OUT[pl.p1][layer]) || got != want {
+                let sig = if got.len() < want.len() { "stacked:first-key-misses-active-one-shots" } else if got.len() > want.len() { "stacked:first-key-sees-evicted-one-shots" } else { "stacked:first-key-wrong-set" };
+                r.verdict = bad(sig, format!("{} distinct one-shots tapped in a row (table holds 16): expected {} with [{}] held; observed {}", pl.taps.len(), code_name(kc(PLAIN_OUT[pl.p1][layer])), want.iter().map(|c| code_name(*c)).collect::<Vec<_>>().join(" "), show(first)));
+                return Some(r);
+            }
+        }
+    }
+    Some(r)
+}
+
+// ------------------------------------------------------------------ the check
+
+fn param_sets(tier: Tier) -> Vec<P> {
+    let ts: &[u16] = tier.sel(&[3, 80], &[2, 3, 9, 80]);
+    let mut v = vec![];
+    for shape in 0..3 {
+        for end in ENDS {
+            for &t in ts {
+                for red in [5u16, 0, 1] {
+                    v.push(P { shape, end, t, red });
+                }
+            }
+        }
+    }
+    v
+}
+fn exh_n(tier: Tier, t: u16) -> usize {
+    match tier {
+        Tier::Quick => {
+            if t <= 9 {
+                5
+            } else {
+                4
+            }
+        }
+        Tier::Thorough => {
+            if t <= 3 {
+                6
+            } else {
+                5
+            }
+        }
+    }
+}
+fn gapvals(t: u16) -> Vec<u32> {
+    let t = t as u32;
+    let mut g = vec![0, 1, t.saturating_sub(1), t, t + 1];
+    g.sort();
+    g.dedup();
+    g
+}
+fn n_exh_cases(tier: Tier) -> u64 {
+    param_sets(tier).len() as u64 * 9
+}
+fn n_random(tier: Tier) -> u64 {
+    tier.sel(4_000, 80_000)
+}
+/// the family schedules need 5 events; with N = 4 they are run in addition
+fn family_schedules() -> Vec<Vec<usize>> {
+    vec![vec![0, 0, 2, 2, 2], vec![0, 2, 2, 2, 0], vec![0, 0, 0, 0, 2], vec![0, 0, 1, 1, 2]]
+}
+
+impl C06Check {
+    fn run_exhaustive(&self, ctx: &Ctx, idx: u64, out: &mut CaseOut) {
+        let ps = param_sets(ctx.tier);
+        let p = ps[(idx / 9) as usize].clone();
+        let p0 = ((idx % 9) / 3) as usize;
+        let p1 = (idx % 3) as usize;
+        let text = p.render();
+        let n = exh_n(ctx.tier, p.t);
+        let gv = gapvals(p.t);
+        let mut lock = match Lock::new(p.clone(), &text) {
+            Ok(l) => l,
+            Err(e) => {
+                out.violate("C06:config-rejected", format!("one-shot configuration rejected: {}", e.lines().next().unwrap_or("")), json!({"config": text, "error": e, "history": "", "observed": "parse error", "expected": "accepted"}));
+                return;
+            }
+        };
+        let codes = lock.codes;
+        let tail = p.t as u32 + 2;
+        let mut bads: Vec<(Vec<Ev>, Bad, Vec<usize>, Vec<usize>)> = vec![];
+        let mut lens: Vec<(usize, Option<Vec<usize>>)> = (2..=n).map(|l| (l, None)).collect();
+        if n < 5 {
+            for f in family_schedules() {
+                if f[0] == p0 && f[1] == p1 {
+                    lens.push((5, Some(f)));
+                }
+            }
+        }
+        for (len, fixed) in lens {
+            let prefix: Vec<usize> = match &fixed {
+                Some(f) => f.clone(),
+                None => vec![p0, p1],
+            };
+            for_each_schedule(3, gv.len(), len, &prefix, |keys, gaps| {
+                let h = schedule_to_hist(&codes, keys, gaps, &gv, tail, 1);
+                let mut bad = lock.run(&h);
+                if bad.is_none() {
+                    match family_check(&p, keys, gaps, &gv, &lock.outs) {
+                        Some((name, Ok(()))) => {
+                            out.inc("statement_checks");
+                            out.inc(&format!("family:{name}"));
+                        }
+                        Some((_, Err(b))) => bad = Some(b),
+                        None => {}
+                    }
+                }
+                out.inc("schedules");
+                out.inc("schedules_exhaustive");
+                if gaps.iter().all(|g| *g == 0) {
+                    let ks: String = keys.iter().map(|k| char::from(b'a' + *k as u8)).collect();
+                    out.tag(format!("E:{}:{ks}", p.label()));
+                }
+                if let Some(b) = bad {
+                    bads.push((h, b, keys.to_vec(), gaps.to_vec()));
+                    match Lock::new(p.clone(), &text) {
+                        Ok(l) => {
+                            out.count("one_shot_activations", lock.model.activations);
+                            out.count("ended_by_timeout", lock.model.ends_by_timeout);
+                            out.count("ended_by_input", lock.model.ends_by_input);
+                            lock = l
+                        }
+                        Err(_) => return false,
+                    }
+                    return bads.len() < 3;
+                }
+                clear_trace(&mut lock.sim);
+                true
+            });
+            if bads.len() >= 3 {
+                break;
+            }
+        }
+        out.count("one_shot_activations", lock.model.activations);
+        out.count("ended_by_timeout", lock.model.ends_by_timeout);
+        out.count("ended_by_input", lock.model.ends_by_input);
+        out.max("stack_depth_exhaustive", lock.model.max_stack.max(lock.max_kanata_stack));
+        for (h, b, keys, gaps) in bads.iter().take(3) {
+            report(out, &p, &text, h, b, Some((keys, gaps, &gv)));
+        }
+        out.inc("param_sets_x_prefix");
+        if p0 == 0 && p1 == 0 && (idx / 9) % 12 == 1 {
+            out.sample = Some(json!({"part": "exhaustive", "config": text, "params": p.label(), "first_two_keys": [p0, p1], "max_events": n, "gaps": gv,
+                "example_history": render_hist(&schedule_to_hist(&codes, &[0, 0, 2, 2, 2], &[0, 1, 2, 1, 3], &gv, tail, 1))}));
+        }
+    }
+
+    fn run_stacked(&self, ctx: &Ctx, idx: u64, out: &mut CaseOut) {
+        let pl = plan2(ctx.seed, idx);
+        let text = pl.cfg.render();
+        if ctx.verbose {
+            eprintln!("config:\n{text}\nhistory: {}", render_hist(&pl.hist));
+        }
+        let Some(r) = run2(&pl, &text, &pl.hist, true) else {
+            out.violate("C06:config-rejected", "stacked one-shot configuration rejected", json!({"config": text, "history": "", "observed": "parse error", "expected": "accepted"}));
+            return;
+        };
+        out.inc("schedules");
+        out.inc("histories_stacked");
+        out.max("stack_depth", r.max_stack);
+        out.max("queue_len", r.max_queue);
+        out.max("modifiers_on_first_key", r.first_key_mods);
+        if r.max_stack >= 16 {
+            out.inc("histories_table_full");
+        }
+        if pl.taps.len() > 16 {
+            out.inc("histories_more_than_16_stacked");
+        }
+        if pl.cfg.mixed {
+            out.inc("histories_mixed_variants");
+        }
+        if pl.pure_expiry {
+            out.inc("histories_pure_expiry");
+        }
+        if pl.distinct && !pl.pure_expiry {
+            out.inc("first_key_set_checks");
+        }
+        out.inc(&format!("stacked_variant:{}", if pl.cfg.mixed { "mixed" } else { pl.cfg.ends[0].name(false) }));
+        if let Err(b) = &r.verdict {
+            let obs: Vec<String> = r.outs.iter().map(|o| format!("@{}: {}{}", o.0, if o.1 { "↓" } else { "↑" }, code_name(o.2))).collect();
+            out.violate(b.sig.clone(), b.what.clone(), json!({"part": "stacked", "config": text, "history": render_hist(&r.realized), "tapped_one_shot_keys": pl.taps.iter().map(|k| OS_PHYS[*k]).collect::<Vec<_>>(), "observed": obs,
+                "expected": "first following key sees the (at most 16) most recent one-shots, second following key and the late probe unmodified, nothing down or pending at the end"}));
+        }
+        out.tag(format!("S:{}:{}:{}:{}:{}:{}", pl.cfg.mixed, pl.cfg.ends[0].name(false), pl.cfg.t, pl.cfg.red, pl.taps.len(), pl.distinct));
+        if idx % 1000 == 77 {
+            out.sample = Some(json!({"part": "stacked", "config": text, "history": render_hist(&pl.hist)}));
+        }
+    }
+}
 
 impl Check for C06Check {
     fn id(&self) -> &'static str {
         "C06"
     }
-    fn n_cases(&self, _ctx: &Ctx) -> u64 {
-        0
+    fn n_cases(&self, ctx: &Ctx) -> u64 {
+        n_exh_cases(ctx.tier) + n_random(ctx.tier)
     }
-    fn run_case(&self, _ctx: &Ctx, _idx: u64) -> CaseOut {
-        CaseOut::new()
+    fn describe(&self, ctx: &Ctx, idx: u64) -> Value {
+        if idx < n_exh_cases(ctx.tier) {
+            let p = param_sets(ctx.tier)[(idx / 9) as usize].clone();
+            json!({"part": "exhaustive", "config": p.render(), "first_two_keys": [(idx % 9) / 3, idx % 3], "max_events": exh_n(ctx.tier, p.t), "gaps": gapvals(p.t)})
+        } else {
+            let pl = plan2(ctx.seed, idx);
+            json!({"part": "stacked", "config": pl.cfg.render(), "history": render_hist(&pl.hist)})
+        }
+    }
+    fn run_case(&self, ctx: &Ctx, idx: u64) -> CaseOut {
+        let mut out = CaseOut::new();
+        if idx < n_exh_cases(ctx.tier) {
+            self.run_exhaustive(ctx, idx, &mut out);
+        } else {
+            self.run_stacked(ctx, idx, &mut out);
+        }
+        out
     }
     fn rule(&self) -> String {
-        "not implemented".into()
+        "Part 1 (exhaustive, seed-independent): physical keys a b c in three shapes (two one-shot keys lsft / lctl + plain c; one-shot layer-while-held + two plain keys with distinct outputs per layer; one-shot output chord C-lalt + one-shot layer + plain c), all one-shot keys of one end variant; 4 variants x T in {3,80} (thorough {2,3,9,80}) x rapid-event-delay {5,0,1}; EVERY physically consistent schedule of 2..=N events (N = 5 for small T, 4 for T=80 plus the five-event family schedules, in quick; 6 / 5 in thorough) with every gap in {0,1,T-1,T,T+1}; keys still down are released T+2 ticks after the last event. Judged: per-tick equality with the one-shot reference model; nothing down / active / queued after the drain; and on the schedule families (tap, key, key-again), (tap alone), (hold, key, key, release), (tap, tap again, key), (tap, tap other one-shot, key) the statement is read directly off the OS stream: 'modified' = the one-shot's keys are down when the key's press is written (key / chord) or the key resolved on the one-shot layer. Part 2 (random, invariants only): 20 one-shot keys (keys, chords, two layers; one variant or mixed variants) + 2 plain keys, T in {30,200}; 17-40 one-shot taps in a row, then key, second key, and a probe key long after the timeout: the first key must see exactly the 16 most recent one-shots when the taps were distinct, the second key and the probe must be plain, nothing may be down, active or queued at the end, no crash. distinct_nontrivial = (parameter set, key sequence) for part 1, (variant, T, delay, taps, distinct) for part 2.".into()
     }
     fn assumptions(&self) -> Vec<String> {
-        vec![]
+        vec![
+            "boundary conventions of appendix A: an event injected after p ticks is processed in tick p+1 at the earliest, one queued event per tick; a one-shot processed in tick x expires in tick x+T (its release is written before any press of that tick), so a key processed in tick <= x+T-1 is modified".into(),
+            "press variants release the one-shot rapid-event-delay ticks after the next key's press was processed and pause input processing meanwhile; release variants end in the tick after the first newly pressed key's release".into(),
+            "the guide says the first activated one-shot's variant governs a stack while the code uses the most recent one; stacks of mixed variants are therefore judged only by the variant-independent invariants (second key, probe, clean end)".into(),
+            "fewer than 32 events pending (the stacked driver lets time pass when the queue reaches 27), at most 8 one-shot layer taps per history (fewer than 12 held layers)".into(),
+            "one kanata instance runs all schedules of an exhaustive case, each followed by a drain until the model is quiescent; a disagreement is re-judged on a fresh instance".into(),
+        ]
+    }
+    fn floors(&self, ctx: &Ctx) -> Vec<(&'static str, u64)> {
+        vec![
+            ("schedules_exhaustive", ctx.tier.sel(1_000_000, 20_000_000)),
+            ("one_shot_activations", 1_000_000),
+            ("ended_by_timeout", 100_000),
+            ("ended_by_input", 100_000),
+            ("statement_checks", 10_000),
+            ("histories_stacked", ctx.tier.sel(3_000, 60_000)),
+            ("histories_table_full", 1_000),
+            ("histories_more_than_16_stacked", 1_000),
+            ("first_key_set_checks", 500),
+            ("max_stack_depth", 16),
+        ]
+    }
+    fn exhaustive(&self, _ctx: &Ctx) -> bool {
+        true
+    }
+    fn watchdog_s(&self, _ctx: &Ctx) -> u64 {
+        180
     }
 }
